@@ -11,6 +11,7 @@ import (
 	"github.com/feichai0017/NoKV/kv"
 	"github.com/feichai0017/NoKV/metrics"
 	"github.com/feichai0017/NoKV/utils"
+	"github.com/feichai0017/NoKV/utils/verifhook"
 	"github.com/pkg/errors"
 )
 
@@ -460,6 +461,7 @@ func (txn *Txn) Delete(key []byte) error {
 // Get looks for key and returns corresponding Item.
 // If key is not found, ErrKeyNotFound is returned.
 func (txn *Txn) Get(key []byte) (item *Item, rerr error) {
+	verifhook.Point("txn.get")
 	if len(key) == 0 {
 		return nil, utils.ErrEmptyKey
 	} else if txn.discarded {
@@ -601,6 +603,7 @@ func (txn *Txn) commitAndSend() (func() error, error) {
 		orc.trackTxnConflict()
 		return nil, utils.ErrConflict
 	}
+	verifhook.Point("txn.commit.tsAssigned")
 
 	setVersion := func(e *kv.Entry) {
 		if e.Version == 0 {
@@ -631,6 +634,7 @@ func (txn *Txn) commitAndSend() (func() error, error) {
 	}
 	ret := func() error {
 		err := req.Wait()
+		verifhook.Point("txn.commit.applied")
 		if err == nil {
 			orc.trackTxnCommit()
 		}
@@ -797,6 +801,7 @@ func (db *DB) newTransaction(update bool) *Txn {
 	}
 	db.orc.trackTxnStart()
 	txn.readTs = db.orc.readTs()
+	verifhook.Point("txn.begin")
 
 	return txn
 }
